@@ -1216,6 +1216,17 @@ func (m *evalModel) formKey() string {
 					return Key{Root: k.Root, Glob: k.Glob, Path: p[:i]}.String()
 				}
 			}
+		case *ssa.Call:
+			// a function of the package that names the head it is handed (the symbol's name, or the marker)
+			if head := headNameArg(x); head != nil {
+				k := m.e.keyOf(head)
+				if strings.HasSuffix(k.Path, ".Val[0]") {
+					p := strings.TrimSuffix(k.Path, ".Val[0]")
+					if i := strings.LastIndex(p, ".("); i >= 0 {
+						return Key{Root: k.Root, Glob: k.Glob, Path: p[:i]}.String()
+					}
+				}
+			}
 		case *ssa.Extract:
 			if ta, ok := x.Tuple.(*ssa.TypeAssert); ok {
 				return find(ta, depth+1)
@@ -2648,4 +2659,68 @@ func dispatchRules(m *evalModel, r *Report, pfx string) {
 		}
 		r.floor(pfx+".dispatch-by-name", "tests that decide the dispatch name", n, 1)
 	}
+}
+
+// headNameArg: c calls a function of the module with one lisp value parameter and one string result whose every
+// answer is a constant or the Val field of that parameter asserted to a struct (`if s, ok := head.(Symbol); ok
+// { return s.Val }; return marker`): the argument the name is taken from, else nil.
+func headNameArg(c *ssa.Call) ssa.Value {
+	sc := c.Call.StaticCallee()
+	if sc == nil || !inModule(sc) || len(sc.Blocks) == 0 || len(sc.Params) != 1 || len(c.Call.Args) != 1 || sc.Signature.Results().Len() != 1 || !isMalType(sc.Params[0].Type()) {
+		return nil
+	}
+	var fromParam func(v ssa.Value, depth int) bool
+	fromParam = func(v ssa.Value, depth int) bool {
+		if depth > 6 {
+			return false
+		}
+		switch x := v.(type) {
+		case *ssa.Const:
+			return true
+		case *ssa.Phi:
+			for _, ed := range x.Edges {
+				if !fromParam(ed, depth+1) {
+					return false
+				}
+			}
+			return len(x.Edges) > 0
+		case *ssa.Field:
+			return fromParam(x.X, depth+1)
+		case *ssa.Extract:
+			return fromParam(x.Tuple, depth+1)
+		case *ssa.TypeAssert:
+			return x.X == ssa.Value(sc.Params[0])
+		case *ssa.UnOp:
+			// a field of the local the asserted struct was spilled into
+			if fa, ok := x.X.(*ssa.FieldAddr); ok && x.Op == token.MUL {
+				if al, ok := fa.X.(*ssa.Alloc); ok {
+					var stored ssa.Value
+					cnt := 0
+					for _, ref := range *al.Referrers() {
+						if st, ok := ref.(*ssa.Store); ok && st.Addr == ssa.Value(al) {
+							stored = st.Val
+							cnt++
+						}
+					}
+					return cnt == 1 && fromParam(stored, depth+1)
+				}
+			}
+		}
+		return false
+	}
+	some := false
+	for _, b := range sc.Blocks {
+		if ret, ok := b.Instrs[len(b.Instrs)-1].(*ssa.Return); ok {
+			if len(ret.Results) != 1 || !isStringVal(ret.Results[0]) || !fromParam(ret.Results[0], 0) {
+				return nil
+			}
+			if _, isC := ret.Results[0].(*ssa.Const); !isC {
+				some = true
+			}
+		}
+	}
+	if !some {
+		return nil
+	}
+	return c.Call.Args[0]
 }
